@@ -83,6 +83,52 @@ def parse_expat(data: bytes | str, keep_ns_decls: bool = False):
     return _freeze(root[0])
 
 
+def parse_scoped(data: bytes | str):
+    """expat tree that keeps, per element, the namespace declarations made on it:
+    node = [qname, {attr: value}, [str | node], [(prefix|None, uri)]] ; also checked by libxml2."""
+    if isinstance(data, str):
+        data = data.encode("utf-8")
+    parse_lxml(data)  # second opinion on well-formedness
+    p = expat.ParserCreate(namespace_separator=" ")
+    p.buffer_text = True
+    p.ordered_attributes = True
+    root: list = []
+    stack: list = []
+    nsdecl: list = []
+
+    def start(name, attrs):
+        a = {}
+        for i in range(0, len(attrs), 2):
+            k = _q(attrs[i])
+            if k in a:
+                raise NotWellFormed(f"duplicate expanded attribute {k}")
+            a[k] = attrs[i + 1]
+        node = [_q(name), a, [], list(nsdecl)]
+        nsdecl.clear()
+        (stack[-1][2] if stack else root).append(node)
+        stack.append(node)
+
+    def chars(d):
+        if stack:
+            ch = stack[-1][2]
+            if ch and isinstance(ch[-1], str):
+                ch[-1] += d
+            else:
+                ch.append(d)
+
+    p.StartElementHandler = start
+    p.EndElementHandler = lambda name: stack.pop()
+    p.CharacterDataHandler = chars
+    p.StartNamespaceDeclHandler = lambda prefix, uri: nsdecl.append((prefix, uri))
+    try:
+        p.Parse(data, True)
+    except expat.ExpatError as e:
+        raise NotWellFormed(f"expat: {e}")
+    if not root:
+        raise NotWellFormed("no root element")
+    return root[0]
+
+
 def _freeze(node):
     q, a, ch = node[0], node[1], node[2]
     kids = []
